@@ -13,7 +13,46 @@ def sh(cmd, cwd=None, timeout=3600):
     p = subprocess.run(cmd, shell=True, cwd=cwd, env=ENV, stdout=subprocess.PIPE, stderr=subprocess.STDOUT, timeout=timeout)
     return p.returncode, p.stdout.decode(errors="replace")
 
+def recheck():
+    # seeded_eval.py --recheck <seeded-id> [--tier t] [--prop Cxx ...]: re-runs our checks against a kept change
+    sid = sys.argv[2]
+    d = os.path.join("/verif/seeded", sid)
+    meta = json.load(open(os.path.join(d, "meta.json")))
+    tier, props = "quick", []
+    args = sys.argv[3:]
+    i = 0
+    while i < len(args):
+        if args[i] == "--tier": tier = args[i+1]; i += 2
+        elif args[i] == "--prop": props.append(args[i+1]); i += 2
+        else: i += 1
+    if not props:
+        props = list((meta.get("our_checks") or {}).keys()) or [meta["property"]]
+    st, out = sh("git -C /repo status --short")
+    if out.strip():
+        print("refusing: /repo is not clean"); sys.exit(2)
+    rc, out = sh(f"git -C /repo apply {d}/patch.diff")
+    if rc != 0:
+        print("patch does not apply:", out[-300:]); sys.exit(2)
+    checks = {}
+    try:
+        for pr in props:
+            t0 = time.time()
+            rc, out = sh(f"bin/check {pr} --tier {tier}", cwd="/verif", timeout=7200)
+            lines = [l for l in out.splitlines() if l.startswith("VIOLATION") or l.startswith("  class=") or l.startswith("check ") or l.startswith("CHECK-ERROR")]
+            checks[pr] = {"tier": tier, "exit": rc, "wall_s": round(time.time()-t0, 1), "lines": [l[:300] for l in lines[:12]]}
+    finally:
+        sh("git -C /repo checkout -- . && git -C /repo clean -fdq")
+    if "our_checks" in meta and meta.get("our_checks") and "first_evaluation" not in meta:
+        meta["first_evaluation"] = {"our_checks": meta["our_checks"], "detected": meta.get("detected")}
+    meta["our_checks"] = checks
+    meta["detected"] = any(c["exit"] == 1 for c in checks.values())
+    meta["rechecked_at_verif_commit"] = sh("git -C /verif rev-parse --short HEAD")[1].strip()
+    json.dump(meta, open(os.path.join(d, "meta.json"), "w"), indent=1)
+    print(json.dumps({"id": sid, "detected": meta["detected"], "checks": {k: (v["exit"], v["lines"][:2]) for k, v in checks.items()}})[:900])
+
 def main():
+    if sys.argv[1] == "--recheck":
+        return recheck()
     src, variant, sid = sys.argv[1], sys.argv[2], sys.argv[3]
     tier = "quick"
     props = []
@@ -55,6 +94,8 @@ def main():
         res["ran"].append("scratch worktree: git apply; go build ./...; go test -vet=off -count=1 ./...; demo.sh with and without the patch")
     finally:
         sh(f"git -C /repo worktree remove --force {wt}")
+    if "--confirm-only" in sys.argv:
+        return finish(res, sid, vdir)
     # our check
     st, _ = sh("git -C /repo status --short")
     rc, out = sh(f"git -C /repo apply {patch}")
